@@ -584,6 +584,22 @@ func vRunRace(c *vCase) {
 			break
 		}
 	}
+	if w.mode == 'B' && reconfigure != nil && len(k.errs) == 0 && (w.name == "abaco-scripted" || w.name == "lancero-card") {
+		// a handful of short runs: Stop arrives at arbitrary moments of the producer's read tick
+		for i := 0; i < 8; i++ {
+			if !reconfigure() {
+				break
+			}
+			src := w.source
+			var s string
+			if !k.must("Start", &src, &okay) {
+				break
+			}
+			time.Sleep(time.Duration(1+c.R.Intn(25)) * time.Millisecond)
+			k.must("Stop", &s, &okay)
+			c.Cov("short_runs", 1)
+		}
+	}
 	cleanup()
 	atomic.StoreInt32(&e.yieldOn, 0)
 	c.Describe("blocks=%d requests=%d yields=%d saves=%d", e.get("core.process.end")-before["core.process.end"], atomic.LoadInt64(&e.requests)-reqBefore,
